@@ -143,6 +143,8 @@ let dispatch (op : string) (x : v) : v =
       of_list (fun r -> let b = M.get_log_fluxes_m lg ln10 (to_raw r) in L [of_z b.M.b_flag; of_q b.M.b_w; of_q b.M.b_lf; of_q b.M.b_le]) (args raws)
   | "linreg", [rows] ->
       let (p1, p2) = M.linreg_m (to_list to_row rows) in L [of_q p1; of_q p2]
+  | "linreg_ortho", [rows] ->
+      let (p1, p2) = M.linreg_ortho_m (to_list to_row rows) in L [of_q p1; of_q p2]
   | "optscale_sc", [av; rows] -> of_q (M.optscale_sc_m (to_q av) (to_list to_row rows))
   | "optscale_av", [rows] -> of_q (M.optscale_av_m (to_list to_row rows))
   | "chi2", [rows; av; sc] -> of_q (M.chi2_m pen (to_list to_row rows) (to_q av) (to_q sc))
